@@ -2,6 +2,7 @@ package main
 
 import (
 	"fmt"
+	"go/constant"
 	"go/types"
 	"os"
 	"strings"
@@ -669,6 +670,70 @@ func (fr *frame) special(b *ssa.BasicBlock, site ssa.Instruction, name string, c
 		x.sc.declFun("errclass", []string{"Int", "Int"}, "Int")
 		x.sc.assert(eq(app("errclass", res.ts[0], res.ts[1]), app("errclass", args[0].ts[0], args[0].ts[1])))
 		return res, h, true
+	case "(encoding/binary.littleEndian).PutUint64", "(encoding/binary.littleEndian).Uint64":
+		// args: receiver (empty struct), b []byte, [v uint64]
+		bi := len(args) - 1
+		if name == "(encoding/binary.littleEndian).PutUint64" {
+			bi = len(args) - 2
+		}
+		bs := args[bi]
+		fr.safety(b, "slice-too-short-for-uint64", site.Pos(), reach, app(">=", bs.ts[2], "8"))
+		x.sc.declFun("le64byte", []string{"Int", "Int"}, "Int")
+		x.sc.declFun("le64dec", []string{"Int", "Int", "Int", "Int", "Int", "Int", "Int", "Int"}, "Int")
+		if _, ok := x.sc.decls["le64!axiom"]; !ok {
+			x.sc.decls["le64!axiom"] = "; little-endian codec axioms"
+			x.sc.declOrder = append(x.sc.declOrder, "le64!axiom")
+			x.sc.assert("(forall ((v Int)) (! (=> (and (<= 0 v) (< v 18446744073709551616)) (= (le64dec (le64byte v 0) (le64byte v 1) (le64byte v 2) (le64byte v 3) (le64byte v 4) (le64byte v 5) (le64byte v 6) (le64byte v 7)) v)) :pattern ((le64byte v 0))))")
+			x.sc.assert("(forall ((v Int) (k Int)) (! (and (<= 0 (le64byte v k)) (< (le64byte v k) 256)) :pattern ((le64byte v k))))")
+			x.assumed["encoding/binary.LittleEndian: Uint64(PutUint64(v)) = v (uninterpreted byte codec with round-trip axiom)"] = true
+		}
+		ek := elemKeyOf(types.Typ[types.Uint8], "")
+		x.regKey(ek, "(Array Int (Array Int Int))")
+		old := x.hget(h, ek)
+		arr := app("select", old, bs.ts[0])
+		if name == "(encoding/binary.littleEndian).Uint64" {
+			var bytes8 []Term
+			for k := 0; k < 8; k++ {
+				bytes8 = append(bytes8, app("select", arr, sidx(bs.ts[1], num(int64(k)))))
+			}
+			res := Val{ts: []Term{app("le64dec", bytes8...)}}
+			x.sc.assert(implies(reach, rangeFact(types.Typ[types.Uint64], res.ts[0])))
+			return res, h, true
+		}
+		v := args[len(args)-1].ts[0]
+		newArr := x.freshConst("putarr", "(Array Int Int)")
+		for k := 0; k < 8; k++ {
+			x.sc.assert(eq(app("select", newArr, sidx(bs.ts[1], num(int64(k)))), app("le64byte", v, num(int64(k)))))
+		}
+		x.sc.assert(fmt.Sprintf("(forall ((i! Int)) (! (=> (or (< i! %s) (>= i! (+ %s 8))) (= (select %s i!) (select %s i!))) :pattern ((select %s i!))))",
+			bs.ts[1], bs.ts[1], newArr, arr, newArr))
+		nh := x.hset(h, ek, app("store", old, bs.ts[0], newArr))
+		return Val{}, x.bumpEpoch(nh), true
+	case "fmt.Sprintf":
+		// formats built only from %s, %d and literal text are modelled as string concatenation
+		if fc, ok := c.Args[0].(*ssa.Const); ok && fc.Value != nil && len(c.Args) == 2 {
+			format := constantString(fc)
+			elems := varargElems(c.Args[1])
+			if res, ok2 := fr.sprintfModel(format, elems); ok2 {
+				return Val{ts: []Term{res}}, h, true
+			}
+		}
+		return Val{}, h, false
+	case "strings.Replace":
+		// strings.Replace(s, old, "", 1): removes the first occurrence of old; axiom: replace1(old ++ x, old) = x
+		if nc, ok := c.Args[2].(*ssa.Const); ok && nc.Value != nil && constantString(nc) == "" {
+			if cnt, ok2 := c.Args[3].(*ssa.Const); ok2 && cnt.Value != nil && cnt.Value.ExactString() == "1" {
+				x.sc.declFun("strreplace1", []string{"Int", "Int"}, "Int")
+				if _, done := x.sc.decls["strreplace1!axiom"]; !done {
+					x.sc.decls["strreplace1!axiom"] = "; strings.Replace(p++x, p, \"\", 1) = x"
+					x.sc.declOrder = append(x.sc.declOrder, "strreplace1!axiom")
+					x.sc.assert("(forall ((p Int) (y Int)) (! (= (strreplace1 (strcat p y) p) y) :pattern ((strreplace1 (strcat p y) p))))")
+					x.assumed["strings.Replace(p+x, p, \"\", 1) == x (first occurrence of a prefix is at index 0)"] = true
+				}
+				return Val{ts: []Term{app("strreplace1", args[0].ts[0], args[1].ts[0])}}, h, true
+			}
+		}
+		return Val{}, h, false
 	case "bytes.Equal":
 		ek := elemKeyOf(types.Typ[types.Uint8], "")
 		x.regKey(ek, "(Array Int (Array Int Int))")
@@ -696,6 +761,120 @@ func (fr *frame) special(b *ssa.BasicBlock, site ssa.Instruction, name string, c
 		return res, h, true
 	}
 	return Val{}, h, false
+}
+
+func constantString(c *ssa.Const) string {
+	if c.Value == nil || c.Value.Kind() != constant.String {
+		return "\x00"
+	}
+	return constant.StringVal(c.Value)
+}
+
+// varargElems recovers the values stored into the array behind a variadic []any argument
+// (new [n]any; a[i] = make interface x_i; slice a[:]).
+func varargElems(v ssa.Value) []ssa.Value {
+	sl, ok := v.(*ssa.Slice)
+	if !ok {
+		return nil
+	}
+	al, ok := sl.X.(*ssa.Alloc)
+	if !ok || al.Referrers() == nil {
+		return nil
+	}
+	at, ok := derefType(al.Type()).Underlying().(*types.Array)
+	if !ok {
+		return nil
+	}
+	out := make([]ssa.Value, at.Len())
+	for _, r := range *al.Referrers() {
+		ia, ok := r.(*ssa.IndexAddr)
+		if !ok || ia.Referrers() == nil {
+			continue
+		}
+		ic, ok := ia.Index.(*ssa.Const)
+		if !ok || ic.Value == nil {
+			return nil
+		}
+		idx, _ := constant.Int64Val(ic.Value)
+		for _, rr := range *ia.Referrers() {
+			if st, ok := rr.(*ssa.Store); ok && st.Addr == ia && idx >= 0 && idx < int64(len(out)) {
+				val := st.Val
+				if mi, ok := val.(*ssa.MakeInterface); ok {
+					val = mi.X
+				}
+				out[idx] = val
+			}
+		}
+	}
+	for _, o := range out {
+		if o == nil {
+			return nil
+		}
+	}
+	return out
+}
+
+// sprintfModel: concatenation model of fmt.Sprintf for formats made of literal text, %s (string operands)
+// and %d (integer operands).
+func (fr *frame) sprintfModel(format string, elems []ssa.Value) (Term, bool) {
+	x := fr.x
+	var cur Term
+	add := func(t Term) {
+		if cur == "" {
+			cur = t
+			return
+		}
+		res := app("strcat", cur, t)
+		cur = res
+	}
+	k := 0
+	lit := ""
+	flush := func() {
+		if lit != "" {
+			add(x.strConst(lit))
+			lit = ""
+		}
+	}
+	for i := 0; i < len(format); i++ {
+		if format[i] != '%' {
+			lit += string(format[i])
+			continue
+		}
+		if i+1 >= len(format) || k >= len(elems) {
+			return "", false
+		}
+		i++
+		switch format[i] {
+		case 's':
+			if !isString(elems[k].Type()) {
+				return "", false
+			}
+			if cc, isConst := elems[k].(*ssa.Const); isConst && cc.Value != nil {
+				lit += constantString(cc) // constant operands fold into the literal text (as Go folds constant concatenation)
+			} else {
+				flush()
+				add(fr.get(elems[k]).ts[0])
+			}
+		case 'd':
+			if isInt, _, _ := intRange(elems[k].Type()); !isInt {
+				return "", false
+			}
+			flush()
+			x.sc.declFun("int2str", []string{"Int"}, "Int")
+			add(app("int2str", fr.get(elems[k]).ts[0]))
+		default:
+			return "", false
+		}
+		k++
+	}
+	flush()
+	if k != len(elems) {
+		return "", false
+	}
+	if cur == "" {
+		cur = "0"
+	}
+	return cur, true
 }
 
 // errClassPreserved: fmt.Errorf("...%w", err) keeps the class of the wrapped error.
